@@ -162,10 +162,12 @@ pub struct Ctx {
 }
 
 thread_local! {
+    static CURRENT_PART: RefCell<Option<String>> = const { RefCell::new(None) };
     static LAST_PANIC: RefCell<Option<(String, String)>> = const { RefCell::new(None) };
 }
 
 pub fn install_panic_hook() {
+    install_crash_handlers();
     std::panic::set_hook(Box::new(|info| {
         let loc = info
             .location()
@@ -193,6 +195,78 @@ pub fn guarded<T>(f: impl FnOnce() -> T) -> Result<T, (String, String)> {
         Err(_) => Err(LAST_PANIC
             .with(|p| p.borrow_mut().take())
             .unwrap_or_else(|| ("?".into(), "panic".into()))),
+    }
+}
+
+
+// ------------------------------------------------------------------------------------------
+// crashes that do not unwind (abort from a violated unsafe precondition, SIGSEGV, SIGILL, SIGFPE, SIGBUS):
+// the case being evaluated on the crashing thread is written as a replay file, a VIOLATION line is
+// printed and the process exits with 1 — otherwise such a crash would end the check without a verdict.
+// ------------------------------------------------------------------------------------------
+
+struct CrashCtx {
+    id: String,
+    part: String,
+    case: *const (),
+    to_json: fn(*const ()) -> Value,
+}
+
+thread_local! {
+    static CRASH_CTX: RefCell<Option<CrashCtx>> = const { RefCell::new(None) };
+}
+
+fn case_to_json<C: Serialize>(p: *const ()) -> Value {
+    // SAFETY: `p` points to the case owned by the evaluating frame, which is still alive while the handler runs
+    let c: &C = unsafe { &*(p as *const C) };
+    serde_json::to_value(c).unwrap_or(Value::Null)
+}
+
+extern "C" fn crash_handler(sig: libc::c_int) {
+    // we are dying anyway: async-signal-safety is traded for a usable report
+    let name = match sig {
+        libc::SIGABRT => "SIGABRT (abort: a panic that cannot unwind, e.g. a violated unsafe precondition / debug assertion in unsafe code)",
+        libc::SIGSEGV => "SIGSEGV",
+        libc::SIGBUS => "SIGBUS",
+        libc::SIGILL => "SIGILL",
+        libc::SIGFPE => "SIGFPE",
+        _ => "signal",
+    };
+    let done = CRASH_CTX.try_with(|c| {
+        if let Ok(b) = c.try_borrow() {
+            if let Some(ctx) = b.as_ref() {
+                let last = LAST_PANIC.try_with(|p| p.try_borrow().ok().and_then(|x| x.clone())).ok().flatten();
+                let (loc, pmsg) = last.unwrap_or_else(|| ("?".into(), String::new()));
+                let sigstr = format!("{}|crash|{}", ctx.id, loc);
+                let msg = format!("the process was killed by {name} while evaluating this case (last panic message: {pmsg} at {loc})");
+                let rf = ReplayFile { property: ctx.id.clone(), part: ctx.part.clone(), signature: sigstr.clone(), message: msg.clone(), case: (ctx.to_json)(ctx.case) };
+                let dir = Path::new(VERIF_DIR).join("replays").join(&ctx.id);
+                let _ = std::fs::create_dir_all(&dir);
+                let path = dir.join(format!("{:016x}.json", fixed_hash(&(&ctx.part, &sigstr, rf.case.to_string()))));
+                let _ = std::fs::write(&path, serde_json::to_string_pretty(&rf).unwrap_or_default());
+                println!("VIOLATION property={} replay={}", ctx.id, path.display());
+                println!("  part={} sig={} :: {}", ctx.part, sigstr, first_line(&msg, 600));
+                return true;
+            }
+        }
+        false
+    });
+    if !matches!(done, Ok(true)) {
+        println!("crash ({name}) outside the evaluation of a case — inconclusive");
+        use std::io::Write;
+        let _ = std::io::stdout().flush();
+        unsafe { libc::_exit(2) };
+    }
+    use std::io::Write;
+    let _ = std::io::stdout().flush();
+    unsafe { libc::_exit(1) };
+}
+
+pub fn install_crash_handlers() {
+    for s in [libc::SIGABRT, libc::SIGSEGV, libc::SIGBUS, libc::SIGILL, libc::SIGFPE] {
+        unsafe {
+            libc::signal(s, crash_handler as extern "C" fn(libc::c_int) as usize);
+        }
     }
 }
 
@@ -310,7 +384,23 @@ impl Ctx {
         unknown
     }
 
-    fn eval<C>(&self, f: &(impl Fn(&C) -> CaseResult + Sync), case: &C) -> CaseResult {
+    fn eval<C: Serialize>(&self, f: &(impl Fn(&C) -> CaseResult + Sync), case: &C) -> CaseResult {
+        CRASH_CTX.with(|c| {
+            if let Ok(mut b) = c.try_borrow_mut() {
+                let keep_part = b.as_ref().map(|x| x.part.clone()).unwrap_or_default();
+                *b = Some(CrashCtx { id: self.id.clone(), part: CURRENT_PART.with(|p| p.borrow().clone().unwrap_or(keep_part)), case: case as *const C as *const (), to_json: case_to_json::<C> });
+            }
+        });
+        let r = self.eval_inner(f, case);
+        CRASH_CTX.with(|c| {
+            if let Ok(mut b) = c.try_borrow_mut() {
+                *b = None;
+            }
+        });
+        r
+    }
+
+    fn eval_inner<C>(&self, f: &(impl Fn(&C) -> CaseResult + Sync), case: &C) -> CaseResult {
         match guarded(|| f(case)) {
             Ok(r) => r,
             Err((loc, msg)) => Err(vec![Failure::new(format!("{}|panic|{}", self.id, loc), format!("panic at {loc}: {msg}"))]),
@@ -392,6 +482,7 @@ impl Ctx {
         S: Strategy<Value = C>,
         C: Clone + std::fmt::Debug + Hash + Serialize,
     {
+        CURRENT_PART.with(|p| *p.borrow_mut() = Some(part.to_string()));
         let mut runner = runner_for(self.seed, &self.id, part, shard);
         let mut out = ShardOut {
             evaluations: 0,
@@ -493,6 +584,7 @@ impl Ctx {
                         std::thread::Builder::new()
                             .stack_size(256 << 20)
                             .spawn_scoped(sc, move || {
+                                CURRENT_PART.with(|p| *p.borrow_mut() = Some(part.to_string()));
                                 let mut out = ShardOut {
                                     evaluations: 0,
                                     nontrivial: HashSet::new(),
@@ -559,6 +651,7 @@ impl Ctx {
     }
 
     fn replay_one<C: Serialize + std::fmt::Debug>(&mut self, part: &str, case: &C, f: &(impl Fn(&C) -> CaseResult + Sync)) {
+        CURRENT_PART.with(|p| *p.borrow_mut() = Some(part.to_string()));
         let mut st = PartStats { name: part.to_string(), rule: "replay of a stored case".into(), evaluations: 1, ..Default::default() };
         match self.eval(f, case) {
             Ok(o) => {
@@ -585,6 +678,7 @@ impl Ctx {
 
     /// Every run first re-executes the committed regression inputs of this part.
     fn run_stored_replays<C: Serialize + DeserializeOwned + std::fmt::Debug>(&mut self, part: &str, f: &(impl Fn(&C) -> CaseResult + Sync)) {
+        CURRENT_PART.with(|p| *p.borrow_mut() = Some(part.to_string()));
         let dir = Path::new(VERIF_DIR).join("replays").join(&self.id);
         let Ok(rd) = std::fs::read_dir(&dir) else { return };
         let mut files: Vec<PathBuf> = rd.filter_map(|e| e.ok().map(|e| e.path())).filter(|p| p.extension().map(|e| e == "json").unwrap_or(false)).collect();
